@@ -96,7 +96,7 @@ impl World {
         let mut idm = BTreeMap::new();
         for (n, i) in ids.iter().enumerate() {
             let mut seed = [0x11u8; 32];
-            seed[0] = n as u8 + 1;
+            seed[5] = n as u8 + 1; // (byte 0 is clamped by X25519)
             let sk = x25519::StaticSecret::from(seed);
             let pk = x25519::PublicKey::from(&sk);
             idm.insert(i.clone(), (sk, *pk.as_bytes()));
@@ -241,11 +241,14 @@ impl World {
                                   "detail": out.as_ref().map(wg_name).unwrap_or("None")});
                 };
                 let bytes: Packet = d.into_bytes();
-                self.last_data = Some(bytes[..].to_vec());
+                let copy = bytes[..].to_vec();
                 let mut q = VecDeque::new();
                 let r = self.server.handle_incoming_packet_with_session(bytes, from, &mut q);
                 match r {
                     HandleIncomingPacketResult::Forwarded { packet, session_data, .. } => {
+                        // only a packet that was delivered once is a "replay" later (a packet dropped
+                        // before decryption is still a fresh, genuine packet of its sender)
+                        self.last_data = Some(copy);
                         json!({"kind": "in", "a": a, "sender": i, "fwd": true, "id": self.id_name(&session_data),
                                "intact": packet[..] == payload[..]})
                     }
